@@ -130,6 +130,21 @@ let handle (line : string) : string =
     String.concat " ; " (show_obs o :: List.map (fun ((e, a), b) -> fields e ^ " , " ^ fields a ^ " , " ^ fields b) steps)
   | ["CP"; p; i] -> let p = Hashtbl.find profs p in show_obs (obs_cres p.p_cfg (profileParse idna p (str_of_hex i)))
   | ["CR"; p; b; i] -> let p = Hashtbl.find profs p in show_obs (obs_cres p.p_cfg (profileParseRef idna p (str_of_hex b) (str_of_hex i)))
+  | "INV" :: c :: fs -> let c = Hashtbl.find cfgs c in
+    String.concat "," (List.map (fun x -> string_of_int (int_of_n x)) (inv_obs c (List.map str_of_hex fs)))
+  | "ACC" :: c :: fs -> let c = Hashtbl.find cfgs c in
+    String.concat "," (List.map (fun x -> string_of_int (int_of_n x)) (acc_obs c (List.map str_of_hex fs)))
+  | ["S4"; i] -> (match spec_ipv4_parse (str_of_hex i) with Some a -> "ok " ^ hex_of_str (spec_ipv4_serialize a) | None -> "fail")
+  | ["S4E"; i] -> if spec_ends_in_a_number (str_of_hex i) then "1" else "0"
+  | ["S6"; i] -> (match spec_ipv6_parse (str_of_hex i) with
+      | Some a -> "ok " ^ hex_of_str (spec_ipv6_serialize a) ^ " " ^ String.concat "," (List.map (fun x -> string_of_int (int_of_n x)) a)
+      | None -> "fail")
+  | "S6S" :: ps -> let a = List.map (fun s -> n_of_int (int_of_string s)) ps in
+    let t = spec_ipv6_serialize a in
+    hex_of_str t ^ " " ^ (match spec_ipv6_parse t with Some b -> if a = b then "rt" else "nort" | None -> "nort")
+  | ["SSET"; k; c] -> if spec_in_set (n_of_int (int_of_string k)) (n_of_int (int_of_string c)) then "1" else "0"
+  | ["MSET"; set; c] -> let s = set_of set in let c = n_of_int (int_of_string c) in
+    (if runeShouldBeEncoded s c then "1" else "0") ^ (if runeNotInSet s c then "1" else "0")
   | ["HOST"; c; ns; i] ->
     let c = Hashtbl.find cfgs c in
     let i = str_of_hex i in show_res c (parseHost idna c (empty_url i) i (ns = "1"))
